@@ -183,11 +183,39 @@ func ruleC11_3(c *Ctx) {
 	bodyF := p.Field(pkgCore, "Msg", "Body")
 	msgErr := p.Field(pkgCore, "Msg", "Error")
 	var rspStore *ssa.Store
+	// the instructions of the branch, including those of module helpers called from it (the completion
+	// may have been extracted into a method of Msg)
+	var branchInstrs []ssa.Instruction
+	var helperCalls []ssa.Instruction
+	var collect func(fn *ssa.Function, depth int)
+	collect = func(fn *ssa.Function, depth int) {
+		allInstrs(fn, func(in ssa.Instruction) {
+			branchInstrs = append(branchInstrs, in)
+			if call, ok := in.(*ssa.Call); ok && depth < 2 {
+				if h := call.Call.StaticCallee(); h != nil && p.inlinable(h) && !strings.Contains(fnKey(h), "/logging") {
+					bindCall(h, call.Call.Args)
+					collect(h, depth+1)
+				}
+			}
+		})
+	}
 	for _, b := range sread.Blocks {
 		if !inBranch(b) {
 			continue
 		}
 		for _, in := range b.Instrs {
+			branchInstrs = append(branchInstrs, in)
+			if call, ok := in.(*ssa.Call); ok {
+				if h := call.Call.StaticCallee(); h != nil && p.inlinable(h) && !strings.Contains(fnKey(h), "/logging") {
+					bindCall(h, call.Call.Args)
+					helperCalls = append(helperCalls, in)
+					collect(h, 1)
+				}
+			}
+		}
+	}
+	{
+		for _, in := range branchInstrs {
 			st, ok := in.(*ssa.Store)
 			if !ok {
 				continue
@@ -231,15 +259,24 @@ func ruleC11_3(c *Ctx) {
 	// the marking loop is unconditional inside the branch, and the branch returns (f, nil) so that the event loop flushes
 	var markLoop *Loop
 	loops := loopsOf(sread)
-	for _, b := range sread.Blocks {
-		if !inBranch(b) {
-			continue
-		}
-		for _, in := range b.Instrs {
-			if st, ok := in.(*ssa.Store); ok {
-				if fa, ok := st.Addr.(*ssa.FieldAddr); ok && fieldVar(fa.X.Type(), fa.Field) == doneFrag {
-					if l := innermostLoop(loops, b); l != nil {
+	var markHelper ssa.Instruction
+	for _, in := range branchInstrs {
+		if st, ok := in.(*ssa.Store); ok {
+			if fa, ok := st.Addr.(*ssa.FieldAddr); ok && fieldVar(fa.X.Type(), fa.Field) == doneFrag {
+				if st.Parent() == sread {
+					if l := innermostLoop(loops, st.Block()); l != nil {
 						markLoop = l
+					}
+				} else if l := innermostLoop(loopsOf(st.Parent()), st.Block()); l != nil {
+					// in a helper: unconditional there if the loop header dominates every return of the helper
+					uncond := true
+					for _, r := range returnsReachable(st.Parent()) {
+						if !l.Header.Dominates(r.Block()) {
+							uncond = false
+						}
+					}
+					if uncond && len(helperCalls) > 0 {
+						markHelper = helperCalls[len(helperCalls)-1]
 					}
 				}
 			}
@@ -255,8 +292,14 @@ func ruleC11_3(c *Ctx) {
 			continue
 		}
 		nret++
-		if markLoop != nil {
-			c.check(markLoop.Header.Dominates(b), "conn.sread error branch marks every fragment Done on every path", c.at(r), "the marking loop dominates the branch's return",
+		if markLoop != nil || markHelper != nil {
+			okDom := false
+			if markLoop != nil {
+				okDom = markLoop.Header.Dominates(b)
+			} else {
+				okDom = dominatesInstr(markHelper, r)
+			}
+			c.check(okDom, "conn.sread error branch marks every fragment Done on every path", c.at(r), "the marking loop dominates the branch's return",
 				"the loop that marks the sibling fragments Done is skipped on some path of the error branch (e.g. only for some command types): late replies of the siblings of a failed request are then merged into the already answered request")
 		}
 		c.check(isNilConst(results(r)[1]), "conn.sread error branch returns (f, nil)", c.at(r), "nil error: the event loop goes on to flush the completed request",
@@ -810,10 +853,21 @@ func ruleC13_2(c *Ctx) {
 		return
 	}
 	af := strip(asking.Common().Args[0])
+	home := on
+	// the ASKING fragment may be built by a small constructor helper
+	if call, ok := af.(*ssa.Call); ok {
+		if h := call.Call.StaticCallee(); h != nil && h != p.Method(pkgCore, "fragPool", "Get") && p.ownFunc(h) && h.Blocks != nil {
+			rets := returnsReachable(h)
+			if len(rets) == 1 {
+				af = strip(results(rets[0].(*ssa.Return))[0])
+				home = h
+			}
+		}
+	}
 	// literal
 	lit := ""
 	for _, w := range p.fieldWrites(reqF) {
-		if outermost(w.Fn) == on && strip(w.Base) == af {
+		if outermost(w.Fn) == home && strip(w.Base) == af {
 			if call, ok := w.Val.(*ssa.Call); ok && len(call.Call.Args) == 2 {
 				lit, _ = constString(call.Call.Args[1])
 			}
@@ -836,7 +890,7 @@ func ruleC13_2(c *Ctx) {
 	// its reply belongs to nobody
 	isDiscard := false
 	for _, w := range p.fieldWrites(discardF) {
-		if outermost(w.Fn) == on && strip(w.Base) == af {
+		if outermost(w.Fn) == home && strip(w.Base) == af {
 			if k, ok := w.Val.(*ssa.Const); ok && k.Value.String() == "true" {
 				isDiscard = true
 			}
